@@ -352,6 +352,11 @@ def check(pid, tier):
         os.makedirs(os.path.join(VERIF, "evidence"), exist_ok=True)
         with open(os.path.join(VERIF, "evidence", pid + ".json"), "w") as fh:
             json.dump(ev, fh, indent=1, sort_keys=True)
+        if tier == "thorough":
+            # keep the last thorough run next to the (per-run rewritten) evidence file
+            os.makedirs(os.path.join(VERIF, "evidence", "thorough"), exist_ok=True)
+            with open(os.path.join(VERIF, "evidence", "thorough", pid + ".json"), "w") as fh:
+                json.dump(ev, fh, indent=1, sort_keys=True)
         after = repo_status()
         if before != after:
             die("the check changed /repo's working tree:\n" + after)
